@@ -991,6 +991,11 @@ lg_k : u8 , seed : u64 , state : UnionState , }
 
 
 
+// R12b: a DOCUMENTED panic ("# Panics: if the seed of the provided sketch does not match the seed of this union") is modelled as 'returns
+// only if the condition holds': the condition is a tagged POSTCONDITION (`*_validated`) instead of a precondition, so weakening or
+// removing the check is noticed.  Body = the original statement.
+#[verifier::external_body] fn vx_documented_panic(c: bool) ensures c { assert!(c); }
+
 impl CpcUnion {
     spec fn k(&self) -> int { pow2(self.lg_k as nat) as int }
     // the abstract k x 64 matrix of the union, whichever representation holds it
@@ -1028,7 +1033,8 @@ impl CpcUnion {
         }
     }
 
-    fn update ( & mut self , sketch : & CpcSketch ) requires old ( self ) . uwf ( ) , sketch . wf ( ) , old ( self ) . seed == sketch . seed , old ( self ) . upd_pre ( * sketch ) , ensures
+    fn update ( & mut self , sketch : & CpcSketch ) requires old ( self ) . uwf ( ) , sketch . wf ( ) , old ( self ) . upd_pre ( * sketch ) , ensures
+/*@C06.update.seed_validated*/ old ( self ) . seed == sketch . seed ,
 /*@C06.update.wf*/ final ( self ) . uwf ( ) , final ( self ) . seed == old ( self ) . seed ,
 /*@C06.update.empty*/ sketch . num_coupons == 0 ==> * final ( self ) == * old ( self ) ,
 /*@C06.update.lg_k*/ sketch . num_coupons != 0 ==> final ( self ) . lg_k == ( if sketch . lg_k < old ( self ) . lg_k {
@@ -1051,7 +1057,8 @@ lemma_k26 ( sketch . lg_k ) ;
 lemma_k26 ( lgn ) ;
 lemma_kmin ( u0 . lg_k , s . lg_k ) ;
 }
-assert! ( self . seed == sketch . seed ( ) ) ;
+vx_documented_panic ( self . seed == sketch . seed ( ) ) ;
+assert ( /*@C06.update.seed_validated*/ self . seed == sketch . seed ) ;
 let flavor = sketch . flavor ( ) ;
 if flavor == Flavor :: Empty {
 return ;
